@@ -129,6 +129,7 @@ Section VStep.
     intros Ht. destruct (stepr_fields _ _ _ T H) as [[Same | [x [Ee [_ Ex]]]] _]; [apply (v_told _ _ VF); congruence |].
     rewrite Ht in Ex. destruct x; try discriminate Ex. destruct vs_pre as [k0 [K1 K2]].
     pose proof H as H2. rewrite Ee in H2. clear Ee. cbn [stepr] in H2. unfold step_told in H2. chks H2.
+    apply orb_true_iff in C2. destruct C2 as [C2 | CD]; [| exfalso; b2p; unfold hasm, F in Hh; congruence].
     apply orb_true_iff in C2. destruct C2 as [C2 | C2]; [apply orb_true_iff in C2; destruct C2 as [C2 | C2] |]; b2p.
     - eapply (v_nocommit _ _ VF). apply (l_pcok _ _ L Hh). exact C2.
     - destruct (u_1pcts _ _ U C2) as [r [ks [m [o [B1 B2]]]]]. apply (g_pw _ _ G _ _ _ _ k0 B1); auto. eapply (u_1pcdlv _ _ U); eauto.
